@@ -97,6 +97,11 @@ TARGETS = [
     # `self._pos = len(self)` is read AFTER self._append(bs): the length after the append is its own parameter
     dict(file="bitstring/bitstream.py", cls="BitStream", func="append", lean="bs_append", mode="trace", pynames=["bs"], params=[],
          post_lens={"len(self)": "self_len_after"}),
+    # the length is read again AFTER the mutation: its own parameter (see bs_append)
+    dict(file="bitstring/bitstream.py", cls="BitStream", func="__setitem__", lean="bs_setitem", mode="trace", pynames=["key", "value"], params=[],
+         post_lens={"len(self)": "self_len_after"}),
+    dict(file="bitstring/bitstream.py", cls="BitStream", func="__delitem__", lean="bs_delitem", mode="trace", pynames=["key"], params=[],
+         post_lens={"len(self)": "self_len_after"}),
     dict(file="bitstring/bitstream.py", cls="BitStream", func="prepend", lean="bs_prepend", mode="trace", pynames=["bs"], params=[]),
     dict(file="bitstring/bits.py", cls="Bits", func="find", lean="find", mode="trace",
          pynames=["bs", "start", "end", "bytealigned"], params=[("start", "optint"), ("end", "optint"), ("bytealigned", "optbool")],
@@ -104,6 +109,12 @@ TARGETS = [
     dict(file="bitstring/bits.py", cls="Bits", func="rfind", lean="rfind", mode="trace",
          pynames=["bs", "start", "end", "bytealigned"], params=[("start", "optint"), ("end", "optint"), ("bytealigned", "optbool")],
          lens={"len(bs)": "len_bs"}, attrs={"bitstring.options.bytealigned": ("opt_bytealigned", "bool")}),
+    dict(file="bitstring/bits.py", cls="Bits", func="startswith", lean="startswith", mode="trace",
+         pynames=["prefix", "start", "end"], params=[("start", "optint"), ("end", "optint")], lens={"len(prefix)": "len_prefix"}),
+    dict(file="bitstring/bits.py", cls="Bits", func="endswith", lean="endswith", mode="trace",
+         pynames=["suffix", "start", "end"], params=[("start", "optint"), ("end", "optint")], lens={"len(suffix)": "len_suffix"}),
+    dict(file="bitstring/bitarray_.py", cls="BitArray", func="reverse", lean="ba_reverse", mode="trace",
+         pynames=["start", "end"], params=[("start", "optint"), ("end", "optint")]),
     dict(file="bitstring/bits.py", cls="Bits", func="__add__", lean="add", mode="trace", pynames=["bs"], params=[],
          lens={"len(bs)": "len_bs"}),
     dict(file="bitstring/array_.py", cls="Array", func="pop", lean="array_pop", mode="trace", pynames=["i"], params=[("i", "int")]),
@@ -219,6 +230,7 @@ class Tr:
         self.dirty = set()          # roots changed AFTER one of their lengths was first read on this path
         self.len_read = set()       # roots one of whose lengths has been read on this path
         self.changed = set()        # roots that a statement on this path may have changed (read or not)
+        self.single_self_mutation = False   # the function has exactly one statement that can change self (set by translate_one)
         self.local_objs = {}        # local names bound in the body -> L1, L2, ... (so that renaming a local is harmless)
         self.local_names = set()    # every name the body binds
         self.aux = []               # auxiliary Lean definitions (one per loop), emitted before the function
@@ -349,7 +361,9 @@ class Tr:
                 if isinstance(a, ast.Name) and a.id == "self":
                     if "self" in self.changed:
                         # the length AFTER the effects recorded so far: a separately declared parameter, or out of the subset
-                        if "len(self)" in self.spec.get("post_lens", {}) and "self" not in self.dirty:
+                        # (if the length was also read BEFORE the change, the two reads are only unambiguous when the
+                        #  function contains exactly one statement that can change self)
+                        if "len(self)" in self.spec.get("post_lens", {}) and ("self" not in self.dirty or self.single_self_mutation):
                             return self.spec["post_lens"]["len(self)"], "int"
                         raise Untranslatable("len(self) read after a statement that may have changed self")
                     self.len_read.add("self")
@@ -770,7 +784,9 @@ class Tr:
         def root(n):
             while isinstance(n, (ast.Attribute, ast.Subscript, ast.Call)):
                 n = n.func if isinstance(n, ast.Call) else n.value
-            return n.id if isinstance(n, ast.Name) else None
+            if isinstance(n, ast.Name):
+                return "self" if n.id == "super" else n.id     # super().m(...) acts on self
+            return None
         if isinstance(s, ast.Expr) and isinstance(s.value, ast.Call) and isinstance(s.value.func, ast.Attribute):
             r = root(s.value.func.value)
             if r:
@@ -1208,6 +1224,24 @@ def translate_one(repo, spec):
                                        or fn.args.kwonlyargs):
             raise Untranslatable(f"parameter list is now ({', '.join(names)})")
         tr = Tr(spec)
+        # statements of the function that can change self (same rule as Tr.mark_dirty), counted statically; inside a loop
+        # one statement is many mutations
+        def _root(n):
+            while isinstance(n, (ast.Attribute, ast.Subscript, ast.Call)):
+                n = n.func if isinstance(n, ast.Call) else n.value
+            return ("self" if n.id == "super" else n.id) if isinstance(n, ast.Name) else None
+        nmut = 0
+        for node in ast.walk(fn):
+            if isinstance(node, (ast.For, ast.While)):
+                nmut += 2
+            if isinstance(node, ast.Expr) and isinstance(node.value, ast.Call) and isinstance(node.value.func, ast.Attribute) \
+                    and _root(node.value.func.value) == "self":
+                nmut += 1
+            for t in getattr(node, "targets", []) + ([node.target] if isinstance(node, (ast.AugAssign, ast.AnnAssign)) else []):
+                if isinstance(t, (ast.Attribute, ast.Subscript)) and _root(t) == "self" and not (
+                        isinstance(t, ast.Attribute) and isinstance(t.value, ast.Name) and t.attr == "_pos"):
+                    nmut += 1
+        tr.single_self_mutation = (nmut == 1)
         for node in ast.walk(fn):
             if isinstance(node, ast.Name) and isinstance(node.ctx, ast.Store) \
                     and node.id not in [a.arg for a in fn.args.posonlyargs + fn.args.args]:
